@@ -10,7 +10,7 @@ ID = "C13"
 LEVEL = "exploration"
 RULE = (
     "seeded sequential call histories (length 6-30) over small key spaces against alru_cache (function and method; "
-    "maxsize 1-4; default key and a custom key_fn), acached_per_instance (1-3 instances, instances dropped and "
+    "maxsize 1-4; default key and a custom key_fn; also ONE alru_cache(...) decorator object applied to two functions, which keep separate caches and capacities), acached_per_instance (1-3 instances, instances dropped and "
     "garbage-collected mid-history, two different keys awaited in one yield) and alazy_constant (ttl 0 / >0 with a "
     "scripted clock assigned to asynq.tools.utime, dirty()); every call uses one of 6 spellings of the same arguments "
     "(positional, keyword, mixed, defaults omitted, keyword-only); bodies return a fresh token per execution (sometimes a falsy object or None - a cached falsy value is still a hit), block on a "
@@ -134,6 +134,22 @@ def build(kind, maxsize):
             return (yield from body("f", a, b, c))
 
         return f, None
+    if kind in ("lru_shared_deco", "lru_shared_deco_keyfn"):
+        # ONE decorator object applied to two functions (cached = alru_cache(...); @cached ... @cached ...):
+        # each function still has a cache (and a capacity) of its own
+        cached = alru_cache(maxsize=maxsize, key_fn=key_fn_parity) if kind.endswith("keyfn") else alru_cache(maxsize=maxsize)
+
+        @cached
+        @A()
+        def f(a, b=2, *, c=3):
+            return (yield from body("i0", a, b, c))
+
+        @cached
+        @A()
+        def g(a, b=2, *, c=3):
+            return (yield from body("i1", a, b, c))
+
+        return {"i0": f, "i1": g}, None
     if kind == "lru_method":
         class K(object):
             @alru_cache(maxsize=maxsize)
@@ -197,10 +213,12 @@ def run_history(kind, hist, seed):
     f, K = build(kind, hist["maxsize"])
     insts = {}
     model = LRU(hist["maxsize"]) if kind.startswith("lru") else None
+    models = {}
+    shared_deco = kind.startswith("lru_shared_deco")
     pmodel = {}  # per instance name -> dict
 
     def norm_key(kind, iname, key, args, kw):
-        if kind == "lru_keyfn":
+        if kind in ("lru_keyfn", "lru_shared_deco_keyfn"):
             return ("kf", key_fn_parity(args, kw))
         if kind == "lru_method":
             return (iname,) + tuple(key)
@@ -220,13 +238,17 @@ def run_history(kind, hist, seed):
                 env.fail_next = fail
                 nexec = len(env.execs)
                 target = f
+                m_ = model
+                if shared_deco:
+                    target = f[iname]
+                    m_ = models.setdefault(iname, LRU(hist["maxsize"]))
                 if K is not None:
                     if iname not in insts:
                         insts[iname] = K()
                     target = insts[iname].m
                 nk = norm_key(kind, iname, key, args, kw)
-                if model is not None:
-                    hit, stored = model.get(nk)
+                if m_ is not None:
+                    hit, stored = m_.get(nk)
                 else:
                     d = pmodel.setdefault(iname, {})
                     hit, stored = (nk in d), d.get(nk)
@@ -265,10 +287,10 @@ def run_history(kind, hist, seed):
                             want = ("val", tokval(name, tok))
                             if out != want:
                                 viol.append(("miss-returned-wrong-value", {"op": op, "expected": want, "observed": out}))
-                            if model is not None:
-                                if len(model.d) >= model.cap and nk not in model.d:
+                            if m_ is not None:
+                                if len(m_.d) >= m_.cap and nk not in m_.d:
                                     stats["evictions"] += 1
-                                model.put(nk, out[1])
+                                m_.put(nk, out[1])
                             else:
                                 pmodel[iname][nk] = out[1]
                 if viol:
@@ -419,7 +441,7 @@ def make_history(rnd, kind):
         return {"ttl": ttl, "ops": ops}
     nkeys = rnd.randint(2, 5)
     keys = rnd.sample(KEYS, nkeys)
-    ninst = rnd.randint(1, 3) if kind in ("lru_method", "per_instance") else 1
+    ninst = rnd.randint(1, 3) if kind in ("lru_method", "per_instance") else (2 if kind.startswith("lru_shared_deco") else 1)
     ops = []
     for _ in range(rnd.randint(6, 30)):
         r = rnd.random()
@@ -434,7 +456,7 @@ def make_history(rnd, kind):
     return {"maxsize": rnd.randint(1, 4), "ops": ops}
 
 
-KINDS = ["lru_fn", "lru_keyfn", "lru_method", "per_instance", "lazy"]
+KINDS = ["lru_fn", "lru_keyfn", "lru_method", "per_instance", "lazy", "lru_shared_deco", "lru_shared_deco_keyfn"]
 
 
 def plan(tier, seed, build, scale):
